@@ -25,6 +25,12 @@ def _is_close_of_input(t, body):
         a = _strip(t[2][0]) if t[2] else None
         while a is not None and a[0] == 'call' and (a[4].endswith('::clone') or a[4].endswith('::from') or a[4].endswith('::into')) and a[2]:
             a = _strip(a[2][0])
+        if a is not None and a[0] == 'agg':
+            # a candle rebuilt from the input's own accessors (`HLC::from(candle)` seen through): still the current input
+            leaves = list(walk_tree(a))
+            from_input = any(isinstance(x, tuple) and x and x[0] == 'arg' and x[1] >= 2 for x in leaves)
+            from_state = any(isinstance(x, tuple) and x and x[0] == 'field' and _strip(x[1])[0] == 'arg' and _strip(x[1])[1] == 1 for x in leaves)
+            return from_input and not from_state
         return a is not None and (a[0] == 'arg' and a[1] >= 2 or a[0] == 'local')
     return False
 
